@@ -106,9 +106,10 @@ class Tup(list):
     __slots__ = ()
 
 class Closure:
-    __slots__ = ('ident', 'fields')
+    __slots__ = ('ident', 'fields', 'creator')
     def __init__(self, ident, fields):
         self.ident, self.fields = ident, fields
+        self.creator = None
     def __repr__(self):
         return f'Closure({self.ident})'
 
@@ -203,7 +204,8 @@ def deep_copy(v):
             return BoxV(Cell(deep_copy(v.cell.v)), 'Box')
         return v          # Arc/Rc clone shares
     if isinstance(v, Closure):
-        return Closure(v.ident, [deep_copy(x) for x in v.fields])
+        c = Closure(v.ident, [deep_copy(x) for x in v.fields]); c.creator = v.creator
+        return c
     return v              # ints, bools, z3 terms, Str, Ref, Opaque, FnItem, model objects
 
 def shallow_copy(v):
